@@ -1,9 +1,22 @@
 package props
 
-// placeholders, replaced as the generator-side rules land
-func flagFlow(c *Ctx, flagName string) {}
-func genMap(c *Ctx)                    {}
-func genGeneric(c *Ctx)                {}
-func genFormat(c *Ctx)                 {}
-func genMocks(c *Ctx)                  {}
-func genCompile(c *Ctx)                {}
+import "verif/checker/internal/gen"
+
+// generator-side rules shared by several properties
+
+func flagFlow(c *Ctx, flagName string) { gen.CheckFlagBinding(c.Run, c.Prog, flagName) }
+
+func genMap(c *Ctx) { gen.CheckKinds(c.Run, c.Prog) }
+
+func genGeneric(c *Ctx) { gen.CheckKinds(c.Run, c.Prog) }
+
+func genFormat(c *Ctx) {}
+
+func genMocks(c *Ctx) { gen.CheckNoGlobalWrites(c.Run, c.Prog, "G-FRAME/global-state") }
+
+func genCompile(c *Ctx) {
+	gen.CheckKinds(c.Run, c.Prog)
+	if na := gen.CheckAddVar(c.Run, c.Prog); na != nil {
+		gen.CheckReserved(c.Run, c.Prog, na, freeNameList(c, "G-RESERVED"), false)
+	}
+}
